@@ -1,0 +1,13 @@
+//go:build verif
+
+package witness
+
+// This file is only compiled with the "verif" build tag. It exposes the two
+// existing testingOnly interleaving hooks to an out-of-package verification
+// harness, and adds nothing to regular builds.
+
+// VerifSetBeforeAddEntriesCommit sets testingOnlyBeforeAddEntriesCommit.
+func VerifSetBeforeAddEntriesCommit(f func()) { testingOnlyBeforeAddEntriesCommit = f }
+
+// VerifSetBeforeAddEntriesPackage sets testingOnlyBeforeAddEntriesPackage.
+func VerifSetBeforeAddEntriesPackage(f func(start int64)) { testingOnlyBeforeAddEntriesPackage = f }
